@@ -178,6 +178,19 @@ func (e *EvalEnv) Eval(fn *ssa.Function, args []AV, depth int) ([]AV, string) {
 				case avRef:
 					// address of a struct held in a cell / field
 					tgt := e.load(base)
+					if tgt.K == avUnknown {
+						// a nested struct field that was never written: materialise its zero value in place
+						if pt, ok := v.X.Type().Underlying().(*types.Pointer); ok {
+							if _, isStruct := pt.Elem().Underlying().(*types.Struct); isStruct {
+								tgt = AV{K: avStruct, Obj: &AObj{F: map[int]AV{}, T: pt.Elem()}}
+								if base.RefCell != nil {
+									*base.RefCell = tgt
+								} else if base.RefObj != nil {
+									base.RefObj.F[base.RefField] = tgt
+								}
+							}
+						}
+					}
 					if tgt.K == avStruct && tgt.Obj != nil {
 						fr.vals[v] = AV{K: avRef, RefObj: tgt.Obj, RefField: v.Field}
 					} else {
